@@ -99,6 +99,48 @@ extern "C" int harness_main() {
   verif_obs((long)log.entries().size());
   return 0;
 }
+#elif defined(MODE_RECOMPACT_CRASH)
+// a session that recompacts (or restats) the log and is killed right after a symbolic persistence event (temporary file, its flushes, the
+// rename): the next load must find every record of the earlier sessions, whichever of the two files survived
+extern "C" int harness_main() {
+  ir2c_global_ctors();
+  make_state();
+  std::string err; NoDead user; Model m;
+  {
+    static const Rec kSeq[] = { {0, 1, 2, 3}, {1, 2, 5, 7}, {0, 6, 8, 9}, {2, 9, 10, 11}, {1, 12, 13, 14} };
+    int n = (int)verif_nondet("records", 1, 5);
+    BuildLog log; VERIF_ASSERT(log.OpenForWrite(kLog, user, &err), "C08: open for write");
+    for (int i = 0; i < n; i++) { Rec r = kSeq[i]; VERIF_ASSERT(log.RecordCommand(g_edges[r.edge], r.start, r.end, r.mtime), "C08: RecordCommand succeeds");
+      for (int o = 0; o < 4; o++) if (edge_of_output(o) == r.edge) { m.have[o] = true; m.r[o] = r; } }
+    log.Close();
+  }
+  bool restat = verif_bool("killed_session_runs_restat");
+  {
+    BuildLog log; VERIF_ASSERT(log.Load(kLog, &err) == LOAD_SUCCESS, "C08: load before recompaction");
+    verif_vfs_die_after(verif_nondet("die_after_event", 0, VERIF_MAX_EVENTS));
+    if (restat) { StatDisk disk; log.Restat(kLog, disk, 0, NULL, &err); } else log.Recompact(kLog, user, &err);
+    verif_reach(verif_vfs_frozen() ? "killed" : "completed");
+    verif_vfs_freeze(0);
+  }
+  {
+    BuildLog log; err.clear();
+    LoadStatus ls = log.Load(kLog, &err);
+    VERIF_ASSERT(ls == LOAD_SUCCESS, "C08: after a killed recompaction or restat the log is still there and loads");
+    // restat may have replaced the recorded mtimes by the files' current ones (100 + output index) - for all outputs or none
+    bool ok_old = true, ok_new = true;
+    for (int o = 0; o < 4; o++) { BuildLog::LogEntry* e = log.LookupByOutput(kOuts[o]);
+      if (!m.have[o]) { ok_old = ok_old && e == NULL; ok_new = ok_new && e == NULL; continue; }
+      ok_old = ok_old && entry_is(e, m.r[o], o);
+      Rec rn = m.r[o]; rn.mtime = 100 + o; ok_new = ok_new && entry_is(e, rn, o); }
+    VERIF_ASSERT(ok_old || (restat && ok_new), "C08: a killed recompaction or restat loses no record: the log holds either the old or the completely rewritten content");
+    // and the session after that appends and reloads as usual
+    VERIF_ASSERT(log.OpenForWrite(kLog, user, &err), "C08: open for append");
+    Rec extra = { 2, 20, 21, 22 }; VERIF_ASSERT(log.RecordCommand(g_edges[2], extra.start, extra.end, extra.mtime), "C08: RecordCommand succeeds"); log.Close();
+    BuildLog log2; VERIF_ASSERT(log2.Load(kLog, &err) == LOAD_SUCCESS && entry_is(log2.LookupByOutput(kOuts[3]), extra, 3), "C08: what is recorded after the killed session is read back");
+  }
+  verif_reach("done"); verif_obs((long)verif_file_size(kLog));
+  return 0;
+}
 #else
 extern "C" int harness_main() {
   ir2c_global_ctors();
